@@ -43,3 +43,39 @@ PLANS["C04"] = {
     "require": [need("append_unique_head_with_tail_slack", 50), need_set("storage_classes", 14), need_set("alignments", 64),
                 need("operand_rechecks", 100000), need("hostile_args", 1000), need_set("lang_words", 7)],
 }
+
+PLANS["C05"] = {
+    "jobs": {
+        "quick": [("", "release", 8704), ("", "dev", 4352)],
+        "thorough": [("", "release", 4352 * 40), ("", "dev", 4352 * 6)],
+    },
+    "rule": "a case is one cell of the finite grid width 1..128 x {little,big} x {signed,unsigned} x bit offset 0..7 (4096 cells, "
+            "enumerated completely in every run; later rounds repeat the grid with fresh random values) with ~210 values "
+            "(0, +-1, min, max, umax, every single-bit value, random), checked at API level (from_int layout, std byte layouts, "
+            "to_uint/to_int of the packed value and of the same field placed at the offset inside random padding) and at language "
+            "level (uN iN int uint and the ! packers through eval); every 17th case is a float cell (f32/f64 x order x offset) with "
+            "zeros, infinities, subnormals, NaN payloads and random bit patterns. distinct = distinct (cell, round)",
+    "exhaustive": "the (width, order, signedness, offset) grid; values are sampled",
+    "assumptions": ["little-endian for widths that are not a byte multiple is defined on the value's 8-bit groups (first group least "
+                    "significant, last partial group most significant), which is what from_int emits",
+                    "language-level uint is only checked up to 127 bits (the i128 cell cannot hold a 128-bit unsigned value)"],
+    "require": [need("cells:little:signed", 1024), need("cells:little:unsigned", 1024), need("cells:big:signed", 1024),
+                need("cells:big:unsigned", 1024), need("float_cells", 32), need_set("float_classes", 13), need_set("lang_words", 60),
+                need("api_round_trips", 1000000)],
+}
+
+PLANS["C09"] = {
+    "jobs": {
+        "quick": [("", "release", 28000), ("", "dev", 8400)],
+        "thorough": [("", "release", 2800000), ("", "dev", 560000)],
+    },
+    "rule": "a case is one of the 28 words with 48 operand tuples drawn from boundary integers (0, +-1, +-2, 2^k, 2^k+-1, i64/i128 "
+            "min/max, random), reals (zeros, subnormals, +-1, ties, max, infinities, NaN for non-comparisons, random bit patterns), "
+            "mixed int/real and non-numeric operands; operands are pushed as cells (every 8th all-integer tuple goes through "
+            "literals) above a sentinel and the word is run through eval. distinct = distinct (word, operand classes, outcome class)",
+    "assumptions": ["non-representable + - * / neg abs (and bsl) may wrap or raise IntegerOverflow; real rem by zero may be NaN or a "
+                    "division error; min/max with a NaN or with equal operands may return either operand; round is ties-away-from-zero",
+                    "comparisons are not given NaN operands (left unspecified by the statement)"],
+    "require": [need_set("words", 28), need("outcome:wrapped", 100), need("outcome:division-error", 50), need("outcome:type-error", 1000),
+                need("outcome:exact", 10000), need("outcome:real", 5000)],
+}
